@@ -227,6 +227,23 @@ fn main_check(ctx: &Ctx) -> Outcome {
                 if got != one_bytes {
                     return Err(("StripBytes::strip_next", format!("partition {:?} of {} gives {} but one-shot gives {}", chunks.iter().map(|c| show(c)).collect::<Vec<_>>(), show(&whole), show(&got), show(&one_bytes))));
                 }
+                // the one-shot iterator fed slice after slice (StrippedBytes::extend)
+                let mut it = anstream::adapter::strip_bytes(&chunks[0]);
+                let mut got: Vec<u8> = vec![];
+                for (ci, c) in chunks.iter().enumerate() {
+                    if ci > 0 {
+                        if !it.is_empty() {
+                            return Err(("StrippedBytes::extend", format!("iterator over chunk {} of {:?} reports bytes left after being drained", ci - 1, chunks.iter().map(|c| show(c)).collect::<Vec<_>>())));
+                        }
+                        it.extend(c);
+                    }
+                    for p in it.by_ref() {
+                        got.extend_from_slice(p);
+                    }
+                }
+                if got != one_bytes {
+                    return Err(("StrippedBytes::extend", format!("partition {:?} of {} gives {} but one-shot gives {}", chunks.iter().map(|c| show(c)).collect::<Vec<_>>(), show(&whole), show(&got), show(&one_bytes))));
+                }
                 let mut ss = anstream::StripStream::new(Vec::new());
                 for c in &chunks {
                     ss.write_all(c).unwrap();
@@ -288,7 +305,7 @@ fn main_check(ctx: &Ctx) -> Outcome {
     let mut v = viol.into_inner().unwrap();
     v.sort_by_key(|f| (f.case[0].len(), f.key()));
     out.findings.extend(v);
-    out.push_part(json!({"system":"all partitions vs one-shot (StripBytes, StripStream, WinconBytes, StripStr)","inputs":inputs.len(),"max_tokens":l,"focus_alphabet":focus.len()}));
+    out.push_part(json!({"system":"all partitions vs one-shot (StripBytes, StrippedBytes::extend, StripStream, WinconBytes, StripStr)","inputs":inputs.len(),"max_tokens":l,"focus_alphabet":focus.len()}));
     out.set("evaluations", json!(evals.load(Ordering::Relaxed)));
     out.set("distinct_nontrivial", json!(distinct.lock().unwrap().len()));
     out.set("rule", json!("evaluations = (input, partition) pairs of part (c); distinct_nontrivial = distinct one-shot outputs among the inputs"));
